@@ -959,18 +959,26 @@ class VM:
         else:  # default or number
             method_order = ["valueOf", "toString"]
 
+        from .values import JSBoundMethod
+
         for method_name in method_order:
-            method = value.get(method_name)
+            # Look the method up the way a script would (own, inherited or
+            # built-in for this kind of object) and call it on the value
+            method = self._get_property(value, method_name)
             if method is UNDEFINED or method is NULL:
                 continue
             if isinstance(method, JSFunction):
                 result = self._call_callback(method, [], value)
-                if not isinstance(result, JSObject):
-                    return result
+            elif isinstance(method, JSBoundMethod):
+                result = method(value)
             elif callable(method):
                 result = method()
-                if not isinstance(result, JSObject):
-                    return result
+            else:
+                continue
+            if result is None:
+                result = UNDEFINED
+            if not isinstance(result, JSObject):
+                return result
 
         # If we get here, conversion failed
         raise JSTypeError("Cannot convert object to primitive value")
